@@ -236,6 +236,22 @@ def run(ctx):
         for out in r2.get():
             faults.extend(out)
     srcs = dict(progs)
+    # ColangSM: all histories (bounded) at specification level - no recursion budget exhausted, internal events per call
+    # within the bound - and the micro steps of the real interpreter on every one of those histories
+    from harness import colangsm
+    install_counters()
+    csm = colangsm.explore(ctx, 40 if ctx.quick else 300, 3 if ctx.quick else 4, 1, seed_offset=500, counter=_count)
+    if csm["errors"]:
+        raise RuntimeError("ColangSM: TLC failed on %d programs: %s" % (len(csm["errors"]), csm["errors"][0]))
+    ctx.drift += csm["drift"]
+    for d in csm["drift_samples"][:3]:
+        print("DRIFT C10 ColangSM vs interpreter: %s" % json.dumps(d, default=str)[:1500])
+    c10viol = [v for v in csm["spec_violations"] if colangsm.SERVES.get(v["invariant"]) == "C10"]
+    for sv in c10viol:
+        ctx.note("ColangSM design-level counterexample to %s (program follows)\n%s\n%s" % (sv["invariant"], sv["program"], sv["counterexample"][:1500]))
+    ctx.log("ColangSM: %d programs, %d spec states / %d transitions (NoFuelOut, EventBound: %d counterexamples), %d histories replayed with step counting, drift %d" % (
+        csm["programs"], csm["states"], csm["transitions"], len(c10viol), csm["compared"], csm["drift"]))
+    bounds += csm["bounds"]
     ctx.log("%d run_to_completion calls counted (max %d micro steps), %d fault-injection cases" % (
         len(bounds), max([b["steps"] for b in bounds] or [0]), len(faults)))
     jd = ctx.sub("judge")
@@ -270,7 +286,9 @@ def run(ctx):
             {"fault": x["fault"], "pos": x["pos"], "source": x["source"], "failed": bad,
              "sig": {"fault": x["fault"], "failed": bad[0], "while_matching": x["fault"].startswith("match-")}})
     return {"level": LEVEL, "coverage": {
-        "states": jr.distinct, "transitions": jr.generated, "traces_validated_against_impl": len(bounds) + len(faults),
+        "states": jr.distinct + csm["states"], "transitions": jr.generated + csm["transitions"], "traces_validated_against_impl": len(bounds) + len(faults),
+        "colangsm": {"programs": csm["programs"], "states": csm["states"], "transitions": csm["transitions"], "histories_replayed": csm["compared"], "drift": csm["drift"],
+                     "design_properties": ["NoFuelOut", "EventBound"], "violated": sorted(set(v["invariant"] for v in c10viol))},
         "evaluations": len(bounds) + len(faults), "distinct_nontrivial": len(faults) + len(set(b["origin"] for b in bounds)),
         "rule": "(a) micro steps of every run_to_completion over %d generated + %d hand-written programs (immediately finishing/failing activated flows, restart label, "
                 "recursion with a wait), seeded histories incl. action events, judged against StepBound(elements, live instances); (b) %d fault kinds x 6 statement positions, "
@@ -281,6 +299,7 @@ def run(ctx):
         "micro steps are counted by wrapping statemachine.slide and _process_internal_events_without_default_matchers from the harness (no hook in /repo)",
         "unrelated = flows in other interaction loops that are neither ancestors, descendants nor awaiters of the faulty flow",
         "StepBound's constants were fixed from the corpus maximum with > 4x slack",
+        "ColangSM: every history <= 3 (thorough 4) over the program's alphabet incl. action events x both picks at specification level; its recursion budgets (slide 200, queue 300, merge 50, resolution 50 rounds per call) stand for 'does not return'",
     ]}
 
 
